@@ -179,11 +179,12 @@ def run_impl(rx, tx, psize, pval, frames, active):
 
 def fmt_line(fid, d, style):
     hx = bytes(d).hex().upper()
+    ident = f"{fid:03X}" if fid <= 0x7FF else f"{fid:08X}"  # candump writes 29 bit identifiers with 8 digits
     if style == 0:  # candump console format
-        return f"  can0  {fid:03X}   [{len(d)}]  " + " ".join(f"{b:02X}" for b in d)
+        return f"  can0  {ident:>8}   [{len(d)}]  " + " ".join(f"{b:02X}" for b in d)
     if style == 1:  # candump -l log format
-        return f"(1234567890.123456) can0 {fid:03X}#{hx}"
-    return f"(1234567890.123456) can0 {fid:03X}##1{hx}"  # CAN-FD log format
+        return f"(1234567890.123456) can0 {ident}#{hx}"
+    return f"(1234567890.123456) can0 {ident}##1{hx}"  # CAN-FD log format
 
 
 JUNK_LINES = ["", "   ", "\t", "# capture restarted", "can0 garbage"]
